@@ -32,7 +32,7 @@ CHECKS = {
          "Zero-count convention: zeros of the rounded coefficient; zero operand => 0.", "4/C19"),
 
  "C16": ("stategraph", "explicit-state BFS over method sequences on a real BigInt receiver with canonical state hashing, every transition mirrored on a math/big.Int object graph with identical aliasing",
-         "States are receivers (value, representation class inline+/inline-/heap-small/heap) reached by method sequences to depth 2 (3 thorough); from every state every method x argument tuple x alias pattern of the alphabet is applied to the real BigInt and to a *big.Int mirror; all observers (Sign, BitLen, Cmp, text in 5 bases, bytes, bits, 64-bit conversions, encoders, fmt verbs), panic parity, argument immutability and representation invariants (no negative zero) are compared on every transition.",
+         "States are receivers (value, representation class inline+/inline-/heap-small/heap) reached by method sequences to depth 2 (3 thorough); from every state every method x argument tuple x alias pattern of the alphabet is applied to the real BigInt and to a *big.Int mirror; all observers (Sign, BitLen, Cmp, text in 5 bases, bytes, bits, 64-bit conversions, encoders, fmt verbs), panic parity, argument immutability and representation invariants (no negative zero) are compared on every transition; plus the complete argument tables of Binomial (n <= 140), MulRange (-6..40) and ModSqrt (13 primes up to 2^127-1).",
          "math/big is the reference; only alias patterns math/big supports; receiver undefined after a failed SetString is not observed.", "4/C16"),
 
  "C13": ("opspace", "exhaustive enumeration of a finite Decimal/float64 space through every producer x consumer pair on the real code (round-trip identity oracle)",
@@ -57,7 +57,7 @@ CHECKS = {
          "Cbrt(-Inf) and signs of Neg/Ceil/Floor(0) not asserted; ordinary finite arithmetic delegated to C01/C02.", "4/C08"),
 
  "C03": ("opspace+stategraph", "bounded-exhaustive enumeration of (operation, operands, context) x the trap-set lattice on the real code with a relational oracle against the untrapped execution; explicit-state BFS of the ErrDecimal machine against a two-field model",
-         "Part A: every case of the alphabet is run under the empty trap set and under 80 trap sets (all 4096 on a core of cases; everywhere for single-rounding operations in the thorough tier): trapped condition => error, nil error => identical result and flags, single-rounding operations: error iff trapped/system with the result delivered alongside. Part B: BFS over sequences of the 21 ErrDecimal wrappers x 7 argument tuples x 3 trap sets to depth 3 (+ all unmerged length-2 sequences) against the model 'once failed, nothing is touched; otherwise exactly the Context operation of the same name'.",
+         "Part A: every case of the alphabet is run under the empty trap set and under 80 trap sets (all 4096 on a core of cases; everywhere for single-rounding operations in the thorough tier): trapped condition => error, nil error => identical result and flags, single-rounding operations: error iff trapped/system with the result delivered alongside; Sqrt/Cbrt of 66 operands whose conditions are raised in several places under the lattice sample plus every singleton and pair of conditions. Part B: BFS over sequences of the 21 ErrDecimal wrappers x 7 argument tuples plus SetTraps/PresetFlags pseudo-steps (writes to the exported fields) x 3 initial trap sets to depth 3 (+ all unmerged length-2 sequences) against the model 'once failed, nothing is touched; otherwise exactly the Context operation of the same name'.",
          "Composite functions may fail under non-empty trap sets although the final result is exact; errors of composite functions under the empty trap set are not judged by this property.", "4/C03"),
 
  "C11": ("opspace", "exhaustive enumeration of every coefficient below 10^(2p+2) for small precisions plus sparse guard-digit families and midpoint pre-images on the real code against an integer-root oracle with sticky bit",
@@ -68,11 +68,11 @@ CHECKS = {
          "The reference's error bound is conservative but not machine-checked; two known findings are matched by input predicates.", "4/C12"),
 
  "C18": ("sched", "stateless model checking: cooperative scheduler + depth-first search over all schedules within a preemption bound at statement-level scheduling points of an instrumented overlay of the real code; separate free-running race-detector pass",
-         "14 scenarios of 2-3 goroutines x 1-2 calls sharing one Context, the same inline/heap operands and the package tables (tableExp10 above 128, ln10 tables, WithPrecision, Modf/upscale temporaries, readers vs arithmetic); every schedule with <= 1-2 preemptions is executed; each thread must return its solo result and the deep snapshot of operands, Context and all 26 package-level variables must be unchanged; schedules that fail are replayed twice (determinism) and written as replayable choice lists; plus 300/2000 free-running repetitions under -race.",
+         "21 scenarios of 2-3 goroutines x 1-2 calls sharing one Context (incl. one with the empty rounding mode), the same inline/heap operands and the package tables (tableExp10 above 128, ln10 tables up to Precision 200, WithPrecision, Modf/upscale temporaries, Modf with a nil part, readers vs arithmetic, trapped conditions, fmt padding); every schedule with <= 1-2 preemptions is executed; each thread must return its solo result, the deep snapshot of operands and Context must be unchanged at every switch, and the package-level state (all variables and everything reachable, restored in place before every execution) must end in the initial state or in the state of some sequential order; sync.Mutex/RWMutex/Once block through the scheduler (deadlock = violation); failing schedules are replayed twice (determinism) and written as replayable choice lists; plus 300/2000 free-running repetitions under -race.",
          "Statement-level sequential consistency; composite calls are preempted at every site but only at its first 2 (4) dynamic occurrences per thread (reported as a cap, exhaustive=false); T<=3.", "4/C18"),
 
  "C04": ("opspace", "bounded-exhaustive enumeration of every exported entry point x receiver x argument tuple (generated per parameter type from finite pools) on the instrumented real code under a recover guard and a deterministic loop-fuel budget",
-         "All 161 exported functions and methods (list read from the AST of the tree under test; a missing driver is a harness error) are called by reflection with every tuple of the per-type pools (complete product up to 40000 tuples per method, otherwise a fixed-stride sub-lattice), incl. all 256 format bytes, all printable fmt verbs x 32 flag subsets, every string of <= 4 tokens for the parsers, contexts with precision 0 and three trap sets, operands at the package limits; no panic (BigInt: only where math/big panics too), no loop-fuel exhaustion, well-formed Decimals after every successful call.",
+         "All 161 exported functions and methods (list read from the AST of the tree under test; a missing driver is a harness error) are called by reflection with every tuple of the per-type pools (complete product up to 40000 tuples per method, otherwise a fixed-stride sub-lattice), incl. all 256 format bytes, all printable fmt verbs x 32 flag subsets, every string of <= 4 tokens for the parsers, contexts with precision 0 and three trap sets, operands at the package limits, plus the iterated functions at Precision 330/400/1000 on ten extreme arguments; no panic (BigInt: only where math/big panics too), no loop-fuel exhaustion, well-formed Decimals after every successful call.",
          "Hang detection counts loop iterations inside package apd only; exponent limits are demanded of text input only (as the property states).", "4/C04"),
 }
 
